@@ -148,7 +148,11 @@ func ProcessExpression(ctx Context, doc bsonkit.Doc, prefix string, pair bson.E,
 			// lookup operator
 			operator := ctx.Expression[exp.Key]
 			if operator == nil && ctx.SkipMissing {
-				return nil
+				// skip the operator but not the ones that follow it
+				if i == len(exps)-1 {
+					return nil
+				}
+				continue
 			} else if operator == nil {
 				return fmt.Errorf("unknown expression operator %q", exp.Key)
 			}
